@@ -27,12 +27,12 @@ def judge(req, obs):
             want_err, want_success = 1, False
         if want_err is not None and len(errs) != want_err:
             out.append(("<=10-transmissions" if len(errs) > want_err else "retry-iff-recoverable",
-                        "C08|transmissions|kind=%s|class=%s|run=%s" % (kind, e1.answer_class(e1.err(t)), "ge10" if r >= 10 else "lt10"),
+                        "C08|transmissions|kind=%s|class=%s%s|run=%s" % (kind, e1.answer_class(e1.err(t)), "-nononce" if meta.get("nononce") else "", "ge10" if r >= 10 else "lt10"),
                         "%d error-answered transmission(s) of the %s request for a run of %d x %s" % (want_err, kind, r, t),
                         "%d" % len(errs)))
         if want_success is not None and success != want_success:
             out.append(("no-false-success" if success else "retry-iff-recoverable",
-                        "C08|outcome|kind=%s|class=%s|run=%s" % (kind, e1.answer_class(e1.err(t)), "ge10" if r >= 10 else "lt10"),
+                        "C08|outcome|kind=%s|class=%s%s|run=%s" % (kind, e1.answer_class(e1.err(t)), "-nononce" if meta.get("nononce") else "", "ge10" if r >= 10 else "lt10"),
                         "attempt %s" % ("succeeds" if want_success else "fails"), "success=%s" % success))
     if "polls" in meta:
         which, n = meta["polls"]
@@ -53,7 +53,7 @@ def judge(req, obs):
 def run(ctx):
     res = Result("model_checking")
     res.rule = ("E1 with run-length scripts: every POST position x every ACME error type (24 + unregistered URN + no type) x run length "
-                "of consecutive error answers (quick {1,2,9,10,11}; thorough 1..12); status codes 400/403/429/500/503; "
+                "of consecutive error answers (quick {1,2,9,10,11}; thorough 1..12); status codes 400/403/429/500/503; recoverable errors without a Replay-Nonce header; "
                 "non-JSON/empty error bodies at every position; polled objects reaching the awaited status at poll 19..22. "
                 "Oracle on the CA log per logical request.")
     runs = [1, 2, 9, 10, 11] if ctx.quick else list(range(1, 13))
@@ -69,6 +69,14 @@ def run(ctx):
                 q = dict(base)
                 q["script"] = [{"kind": kind, "nth_from": 0, "nth_to": r - 1, "answer": e1.err(t)}]
                 q["meta"] = dict(base["meta"], run=[kind, t, r])
+                reqs.append(q)
+    # recoverable error answers that carry no Replay-Nonce (RFC 8555 6.5 says SHOULD): the re-send needs a nonce from newNonce
+    for kind in POST_KINDS:
+        for t in e1.RECOVERABLE:
+            for r in ([1, 2, 10] if ctx.quick else runs):
+                q = dict(base)
+                q["script"] = [{"kind": kind, "nth_from": 0, "nth_to": r - 1, "answer": e1.err(t, nononce=True)}]
+                q["meta"] = dict(base["meta"], run=[kind, t, r], nononce=True)
                 reqs.append(q)
     # account update and key roll-over positions (two-phase flows: issue, change the configuration, renew)
     from . import c04
